@@ -33,6 +33,10 @@ type Reg struct {
 // Spec is an ordered list of registrations.
 type Spec struct {
 	Regs []Reg `json:"regs"`
+	// RebuildAfter > 0: after that many steps the collection is built once (the provider is
+	// closed at once and its events are not logged); the remaining steps follow and the Build
+	// under observation comes last. What Build decides must depend on the final set only.
+	RebuildAfter int `json:"rebuild_after,omitempty"`
 }
 
 func lifeName(l godi.Lifetime) string {
@@ -123,9 +127,12 @@ func sigOf(m *pool.Meta) string {
 
 // Lines renders the spec, one registration per line.
 func (s *Spec) Lines() []string {
-	out := make([]string, len(s.Regs))
+	out := make([]string, 0, len(s.Regs)+1)
 	for i, r := range s.Regs {
-		out[i] = fmt.Sprintf("r%d %s", i, r.String())
+		if s.RebuildAfter > 0 && i == s.RebuildAfter {
+			out = append(out, "-- intermediate Build (provider closed at once) --")
+		}
+		out = append(out, fmt.Sprintf("r%d %s", i, r.String()))
 	}
 	return out
 }
@@ -147,7 +154,7 @@ func (s *Spec) Canon() string {
 			grouped = append(grouped, r.String())
 		}
 	}
-	return strings.Join(plain, ";") + "|" + strings.Join(grouped, ";") + "|" + strings.Join(tail, ";")
+	return strings.Join(plain, ";") + "|" + strings.Join(grouped, ";") + "|" + strings.Join(tail, ";") + fmt.Sprintf("|rebuild@%d", s.RebuildAfter)
 }
 
 // AddTo applies registration i to a collection.
